@@ -197,7 +197,7 @@ def run_lines(exe, lines, shards=16, timeout=None):
 
 
 CLOCK = re.compile(r"clock (\d+)")
-CERR_PAYLOAD = re.compile(r"( CERR [^(]*?: \w+)(\(.*)$")
+CERR_FIELDS = re.compile(r" CERR (\w+) (\S*) (.*)$")
 NONASCII = re.compile(r"\\x([0-9a-f]+);")
 
 
@@ -205,17 +205,20 @@ def _has_nonascii(payload):
     return any(int(h, 16) >= 0x80 for h in NONASCII.findall(payload))
 
 
+def _drop_payload(line, m):
+    variant, payload = m.group(1), m.group(2)
+    return line[:m.start()] + " CERR %s %s *" % (variant, payload.split("(")[0])
+
+
 def normalise_pair(impl, model):
-    """The Debug rendering of an unsupported construct's string payload is modelled for the ASCII
-    range only (Rust escapes other characters by Unicode tables): when either side's payload has a
-    character above 0x7f the payload is dropped from both and only kind + variant name compare."""
-    mi, mm = CERR_PAYLOAD.search(impl or ""), CERR_PAYLOAD.search(model or "")
-    if mi and (not mm or _has_nonascii(mi.group(2)) or _has_nonascii(mm.group(2))):
-        impl = CERR_PAYLOAD.sub(r"\1", impl)
-        if mm:
-            model = CERR_PAYLOAD.sub(r"\1", model)
-    elif mm and not mi:
-        model = CERR_PAYLOAD.sub(r"\1", model)
+    """A compile error is observed as `CERR <variant> <payload> <Display text>`. The Debug rendering
+    of an unsupported construct's string payload is modelled for the ASCII range only (Rust escapes
+    other characters by Unicode tables): when either side's payload has a character above 0x7f the
+    parenthesised part of the payload and the Display text are dropped from both sides and only
+    variant + construct name compare."""
+    mi, mm = CERR_FIELDS.search(impl or ""), CERR_FIELDS.search(model or "")
+    if mi and mm and (_has_nonascii(mi.group(2)) or _has_nonascii(mm.group(2))):
+        return _drop_payload(impl, mi), _drop_payload(model, mm)
     return impl, model
 
 
